@@ -220,6 +220,12 @@ theorem walk_resumes_in_document_order {α : Type} (fuel : Nat) (st : List (List
     (h : TreeWalk.stackSize st ≤ fuel) : TreeWalk.walkFrom fuel st = TreeWalk.stackOrder st :=
   TreeWalk.walkFrom_eq fuel st h
 
+/-- **the tree the harness ships loses nothing**: pruning a syntax tree to the nodes of interest and their ancestors
+    (`TreeWalk.prune`, what `harness/src/ts.rs` does) keeps every node of interest and their order, so the comments the
+    walk yields over the shipped tree are those it yields over the full tree -/
+theorem walk_pruned_tree {α : Type} (keep : α → Bool) (t t' : TreeWalk.Tree α) (h : TreeWalk.prune keep t = some t') :
+    (TreeWalk.walk t').filter keep = (TreeWalk.walk t).filter keep := TreeWalk.walk_pruned keep t t' h
+
 /-- non-vacuity: a comment nested three levels deep after a childless sibling is reached -/
 example : TreeWalk.walk (.node "root" [.node "a" [], .node "b" [.node "string" [.node "interp" [.node "comment" []]]], .node "c" []])
     = ["root", "a", "b", "string", "interp", "comment", "c"] := by decide
